@@ -1,0 +1,15 @@
+//go:build verif
+// +build verif
+
+package evalfilter
+
+import (
+	"github.com/skx/evalfilter/v2/environment"
+	"github.com/skx/evalfilter/v2/vm"
+)
+
+// VerifMachine exposes the prepared virtual machine (nil before Prepare).
+func (e *Eval) VerifMachine() *vm.VM { return e.machine }
+
+// VerifEnvironment exposes the evaluator's environment.
+func (e *Eval) VerifEnvironment() *environment.Environment { return e.environment }
